@@ -15,6 +15,7 @@ func init() {
 			"(D2) every iteration in unspecified order (range over a map, maps.Keys/Values/All, ssa.Program.AllPackages, reflect MapKeys) is proved harmless (keys collected and sorted before any use; iterator wrapped in slices.Sorted), or is in the reviewed table with its reason, keyed by function + ranged expression + the effects of the loop body; " +
 			"(D3) no goroutines or select in garble (a positive control must be found on every run); " +
 			"(R03.4) math/rand generators are created in exactly one place, transformCompile, seeded from the package's GarbleActionID or the -seed bytes, and every other math/rand use in the region is a method on a *rand.Rand value. " +
+			"(R07.2, shared with C07) independence of the cache state: a package's reflection facts are the same whether its dependencies' entries are present or have to be recomputed. " +
 			"Does not decide determinism of go/printer, go/ssa, msgp, the Go toolchain or the filesystem.",
 		perConfig: checkC03,
 	})
@@ -41,6 +42,7 @@ var reviewedD2 = reviewedMap([]reviewedSite{
 
 func checkC03(c *Ctx) {
 	w := c.W
+	ruleDepCacheRecompute(c)
 	g := w.Graph()
 	var roots []*ssa.Function
 	for _, n := range detRegionRoots {
